@@ -171,16 +171,18 @@ class ResetMethod(MethodDescriptor):
         if not _if:
             return self
 
+        original = self
         if not _inplace:
             self = copy.deepcopy(self)
 
         # (If resetting one of the attributes fails, those already reset on a
         # live instance are put back.)
-        with _restored_on_error(self, enabled=_inplace):
+        with _restored_on_error(self, enabled=self is original):
             for attr in self.__spec_class__.attrs:
                 try:
-                    # A private copy may be mutated even if the class is frozen.
-                    self.__delattr__(attr, force=not _inplace)
+                    # A private copy may be mutated even if the class is frozen
+                    # (`do_not_copy` classes hand back the instance itself).
+                    self.__delattr__(attr, force=self is not original)
                 except AttributeError:
                     pass
 
